@@ -190,3 +190,63 @@ def dm_resize_value_rules(run, db):
                   '%s: <render(a), y> - <a, render_backprop(y)> = %s, not 0: the resize (pad / crop) of the companion is not the transpose of the forward one' % (label, (lhs - rhs).key()[:200]), fb.loc())
         n_ok += ok
     return n_ok
+
+
+def modal_sum_decided(db):
+    """(instances decided on values, findings) of the modal sums for this tree, computed once per DB"""
+    cached = getattr(db, '_c06_modal_sum', None)
+    if cached is None:
+        from ..core.report import Run
+        quiet = Run('C06', 'quick', '')
+        try:
+            n = modal_sum_value_rules(quiet, db)
+            cached = (n, len(quiet.findings))
+        except AnalysisError:
+            cached = (0, 0)
+        db._c06_modal_sum = cached
+    return cached
+
+
+def modal_sum_value_rules(run, db, rule='C06.sum'):
+    """sum_of_2d_modes and its companion on values: for K = 2 modes of shape 2x3 (and 3 modes of 1x2), result[i, j] == sum_k w_k modes[k, i, j]
+    and backprop[k] == sum_ij modes[k, i, j] databar[i, j] -- the pair is then adjoint by construction, whatever call spells the contraction"""
+    PP = 'prysm.polynomials.'
+    ff, fb = db.func(PP + 'sum_of_2d_modes'), db.func(PP + 'sum_of_2d_modes_backprop')
+    n_ok = 0
+    for K_, (H, W) in ((2, (2, 3)), (3, (1, 2)), (2, (3, 2))):
+        it, dom = file_interp(db)
+        label = '%d modes of shape %dx%d' % (K_, H, W)
+        modes = lambda: FArr.of((K_, H, W), [dom.sym('m%d_%d%d' % (k, i, j)) for k in range(K_) for i in range(H) for j in range(W)], DType('f', 8))
+        w = lambda: FArr.of((K_,), [dom.sym('w%d' % k) for k in range(K_)], DType('f', 8))
+        g = lambda: FArr.of((H, W), [dom.sym('g%d%d' % (i, j)) for i in range(H) for j in range(W)], DType('f', 8))
+        S = _run1(it, ff, 'sum_of_2d_modes, ' + label, modes=modes(), weights=w())
+        B = _run1(it, fb, 'sum_of_2d_modes_backprop, ' + label, modes=modes(), databar=g())
+        R_ = dom.rat
+        okf = tuple(S.shape) == (H, W)
+        if okf:
+            for i in range(H):
+                for j in range(W):
+                    want = Rat(dom.R.const(0))
+                    for k in range(K_):
+                        want = want + R_(dom.sym('w%d' % k)) * R_(dom.sym('m%d_%d%d' % (k, i, j)))
+                    got = R_(S.values()[i * W + j])
+                    if got is None:
+                        raise AnalysisError('sum_of_2d_modes, %s: a sample of the sum is not followed' % label)
+                    okf = okf and got == want
+        run.check(okf, rule, ff.qual, 'modal sum on values', 'sum_of_2d_modes, %s: sample (i, j) is sum_k w_k modes[k, i, j]' % label,
+                  'sum_of_2d_modes, %s: the result (shape %s) is not sum_k w_k modes[k] sample by sample' % (label, tuple(S.shape)), ff.loc())
+        okb = tuple(B.shape) == (K_,)
+        if okb:
+            for k in range(K_):
+                want = Rat(dom.R.const(0))
+                for i in range(H):
+                    for j in range(W):
+                        want = want + R_(dom.sym('g%d%d' % (i, j))) * R_(dom.sym('m%d_%d%d' % (k, i, j)))
+                got = R_(B.values()[k])
+                if got is None:
+                    raise AnalysisError('sum_of_2d_modes_backprop, %s: an entry of the gradient is not followed' % label)
+                okb = okb and got == want
+        run.check(okb, rule, fb.qual, 'modal sum companion on values', 'sum_of_2d_modes_backprop, %s: entry k is sum_ij modes[k, i, j] databar[i, j]' % label,
+                  'sum_of_2d_modes_backprop, %s: the result (shape %s) is not the contraction of each mode with databar' % (label, tuple(B.shape)), fb.loc())
+        n_ok += okf + okb
+    return n_ok
